@@ -432,6 +432,8 @@ pub fn build_world(seed: u64, idx: u64, out: &mut RunOut) -> World {
       let n = match f {
         // ChoiceOfMaps doubles its text per level: beyond 7 it is only a slow, big input
         Family::ChoiceOfMaps => rw.range(1, 7),
+        // doubles per level in the CBOR validator today (known finding, measured by the growth series)
+        Family::RecursiveChoiceBadLeaf => rw.range(1, 10),
         Family::AliasDiamond | Family::SchemaChoiceNest => rw.range(1, 10),
         _ if nesting => *rw.pick(&[4usize, 8, 16, 32, 48, 63, 64]),
         Family::ManyRules | Family::ManyChoices | Family::WideMap | Family::OptionalRun => *rw.pick(&[10usize, 100, 400, 1000]),
@@ -615,7 +617,15 @@ impl Check for C05G {
     let mut out = RunOut::default();
     let f = FAMILIES[(idx as usize) / GROWTH_OPS.len() % FAMILIES.len()];
     let op = GROWTH_OPS[(idx as usize) % GROWTH_OPS.len()];
-    let params: Vec<usize> = if is_nesting(f) { vec![4, 8, 12, 16] } else { vec![50, 100, 200, 400] };
+    // geometric probe: equally spaced depths; an exponential keeps its ratio, a polynomial's ratio falls
+    let geometric = f == Family::RecursiveChoiceBadLeaf;
+    let params: Vec<usize> = if geometric {
+      vec![4, 7, 10, 13, 16]
+    } else if is_nesting(f) {
+      vec![4, 8, 12, 16]
+    } else {
+      vec![50, 100, 200, 400]
+    };
     let mut counts: Vec<u64> = Vec::new();
     for (pi, n) in params.iter().enumerate() {
       // the input of ChoiceOfMaps doubles per level by construction: its series is not a growth claim
@@ -623,7 +633,7 @@ impl Check for C05G {
         break;
       }
       // decided already (two ratios above the limit): the last, most expensive point adds nothing
-      if pi == 3 && counts.len() == 3 && counts[1] as f64 / counts[0] as f64 >= growth_limit(f) && counts[2] as f64 / counts[1] as f64 >= growth_limit(f) {
+      if !geometric && pi == 3 && counts.len() == 3 && counts[1] as f64 / counts[0] as f64 >= growth_limit(f) && counts[2] as f64 / counts[1] as f64 >= growth_limit(f) {
         break;
       }
       let c = family_case(f, *n);
@@ -658,7 +668,13 @@ impl Check for C05G {
     // size: doubling n must not multiply the work by >= 64 twice in a row (anything up to degree 5 stays below).
     let limit = growth_limit(f);
     let ratios: Vec<f64> = counts.windows(2).map(|w| w[1] as f64 / w[0] as f64).collect();
-    let bad = ratios.windows(2).any(|r| r[0] >= limit && r[1] >= limit);
+    let bad = if geometric {
+      // every +3 levels multiplies the work by at least 3, and the factor does not fall off: for n^k the last
+      // factor is (16/13)^k against (7/4)^k for the first, i.e. at most 0.37 of it for any k >= 3
+      ratios.len() == 4 && ratios.iter().all(|r| *r >= 3.0) && ratios[3] >= 0.7 * ratios[0]
+    } else {
+      ratios.windows(2).any(|r| r[0] >= limit && r[1] >= limit)
+    };
     if bad {
       let c = family_case(f, params[1]);
       let w = World {
@@ -673,7 +689,11 @@ impl Check for C05G {
         class: "super-polynomial".into(),
         signature: format!("{}:{:?}", op, f),
         world: json!({"family": format!("{:?}", f), "op": op, "params": params, "example": w.to_json()}),
-        detail: format!("allocator calls {:?} at parameters {:?}: ratios {:?} (limit {} twice in a row)", counts, params, ratios, limit),
+        detail: if geometric {
+          format!("allocator calls {:?} at depths {:?}: the factor per +3 levels stays at {:?} (geometric growth; a polynomial's factor falls off)", counts, params, ratios)
+        } else {
+          format!("allocator calls {:?} at parameters {:?}: ratios {:?} (limit {} twice in a row)", counts, params, ratios, limit)
+        },
       });
     }
     out.fp = fnv_add(fnv(op.as_bytes()), format!("{:?}{:?}", f, counts).as_bytes());
